@@ -113,3 +113,24 @@ Example C12_leakybucket_after_close_grows : forall n,
   fst (fold_left fqc_step (repeat FcEnq n) (fqc_step (3, false) FcClose)) = 3 + Z.of_nat n.
 Proof. intros n. rewrite C12_leakybucket_after_close_refuted, fqc_enqs_repeat. reflexivity. Qed.
 Print Assumptions C12_leakybucket_after_close_grows.
+
+(* cc interceptor / gcc send-side BWE / pacer (leaky bucket and NoOp pacer): the per-stream writer map
+   holds exactly the currently bound streams (no duplicates) after every Bind/Unbind history *)
+Theorem C12_gcc_writers_bounded : forall ops,
+  let st := fold_left gw_step ops gw_init in
+  gw_writers st = gw_bound st /\ NoDup (gw_writers st).
+Proof. intros ops. split; [apply gw_run_eq; reflexivity|apply gw_run_NoDup; constructor]. Qed.
+Print Assumptions C12_gcc_writers_bounded.
+Theorem C12_gcc_unbind_releases :
+  (forall st s, ~ In s (gw_writers (gw_step st (GwUnbind s)))) /\
+  (forall n, let st := fold_left gw_step (gw_churn 1 n) gw_init in gw_writers st = [] /\ gw_bound st = []).
+Proof. split; [exact gw_unbind_releases|intros n; apply gw_churn_releases; reflexivity]. Qed.
+Print Assumptions C12_gcc_unbind_releases.
+(* a pacer whose RemoveStream is never reached (gw_step_keep: the code before fix 04f38da, or an
+   assertion in SendSideBWE.RemoveStream that misses the configured pacer), REFUTED: n streams bound
+   and unbound again leave n writers *)
+Theorem C12_gcc_writers_kept_refuted : forall n,
+  let st := fold_left gw_step_keep (gw_churn 1 n) gw_init in
+  zlen (gw_writers st) = Z.of_nat n /\ gw_bound st = [].
+Proof. intros n. apply (gw_churn_keeps n 1 gw_init); [cbn; tauto|reflexivity]. Qed.
+Print Assumptions C12_gcc_writers_kept_refuted.
